@@ -58,7 +58,7 @@ func runBounded(harness string, args ...string) ([]boundedResult, error) {
 	}
 	for i := range res {
 		res[i].WallS = time.Since(t0).Seconds()
-		res[i].Label = "bounded (exhaustive native execution; not a proof obligation)"
+		res[i].Label = "cross-check by exhaustive native execution of the real code (redundant with the exact-model and bit-precise round-trip lemmas; not a proof obligation, not counted)"
 	}
 	return res, nil
 }
